@@ -631,18 +631,24 @@ def runtime_files_of(repo: Repo):
 _MAPS = ("key_transform_with_load", "key_transform_with_dump")
 
 
-def _meta_map_reads(conv, fn_node: ast.AST, depth: int = 0):
-    """[(function node in which the Meta map is read, the read)] for `fn_node` and the module helpers it hands a map name to"""
+def _meta_map_reads(conv, fn_node: ast.AST, depth: int = 0, seen=None):
+    """[(function node in which the Meta map is read, the read)] for `fn_node` and - transitively, three levels - the module helpers it calls"""
+    seen = set() if seen is None else seen
     out = []
     for x in ast.walk(fn_node):
         if isinstance(x, ast.Attribute) and x.attr in _MAPS:
             out.append((fn_node, x))
-        elif isinstance(x, ast.Call) and any(isinstance(a, ast.Constant) and a.value in _MAPS for a in x.args):
+        elif isinstance(x, ast.Call):
             d = dotted(x.func) or ""
-            if d in ("getattr", "hasattr"):
+            named = any(isinstance(a, ast.Constant) and a.value in _MAPS for a in x.args)
+            if named and d in ("getattr", "hasattr"):
                 out.append((fn_node, x))
-            elif d in conv.functions and depth < 2:
-                out.append((conv.functions[d].node, x))
+            elif d in conv.functions and depth < 3 and d not in seen:
+                callee = conv.functions[d].node
+                if named:
+                    out.append((callee, x))  # the helper is handed the map name: the read happens in it
+                else:
+                    out += _meta_map_reads(conv, callee, depth + 1, seen | {d})
     return out
 
 
